@@ -60,16 +60,21 @@ def defuse_obligation(prop, touched):
               'the anchored operations must not raise NameError/UnboundLocalError on any path: every local is assigned on all paths before it is read (must-assigned forward analysis; loop bodies may run zero times)', body)
 
 
-def call_closure(repo, keys):
-    """functions reachable from the given (mod, cls, name) keys through calls resolved by imports / self / super / class names"""
+def call_closure(repo, keys, depth=None):
+    """functions reachable from the given (mod, cls, name) keys through calls resolved by imports / self / super / class names
+    (at most `depth` calls away when given)"""
     seen, todo = set(), []
+    dist = {}
     for k in keys:
         node = repo.funcs.get(k)
         if node is not None and k not in seen:
             seen.add(k)
+            dist[k] = 0
             todo.append(core.Fn(repo, k[0], k[1], k[2], node))
     while todo:
-        f = todo.pop()
+        f = todo.pop(0)
+        if depth is not None and dist[(f.mod, f.cls, f.name)] >= depth:
+            continue
         gs = [g for _, g in repo.callees(f, by_name=False)]
         # functions / classes handed on as values (sorted(key=Cmp), reduce(f, ...)) are referenced too
         for n in ast.walk(f.node):
@@ -79,35 +84,46 @@ def call_closure(repo, keys):
                     gs.append(r)
                 elif isinstance(r, tuple) and r[0] == 'class':
                     for (m2, c2, n2), node2 in repo.funcs.items():
-                        if c2 == r[1]:
+                        if c2 == r[1] and n2 in ('__init__', '__call__', '__lt__', '__gt__', '__eq__', 'cmp', 'wrapped') and not (
+                                isinstance(n, ast.Name) and f.cls == r[1]):      # (super(C, self) inside C is not a use of C's protocol)
                             gs.append(core.Fn(repo, m2, c2, n2, node2))
         for g in gs:
             k = (g.mod, g.cls, g.name)
             if g.outer is None and k not in seen and k in repo.funcs:
                 seen.add(k)
+                dist[k] = dist[(f.mod, f.cls, f.name)] + 1
                 todo.append(g)
     return seen
 
 
+# Obligations of another property that are ALSO necessary conditions of this one, because this property's statement rests on the
+# behaviour they pin down (confirmed by reading the call paths; one line of reason each). Deliberately a hand-confirmed table and not
+# the call-graph closure: "P's code reaches helper H" does not make every clause about H a clause of P.
+SHARE = {
+    'C01': [('C06.2', 'inc/exc are table operations of the statement (masking / filtering returns a new rectangular table)')],
+    'C02': [('C07.2', 'the merge walks the keys with cmp: it must be antisymmetric'), ('C07.3', 'int/float and NaN keys are equal under cmp'),
+            ('C07.10', 'keys are compared after as_primitive'), ('C07.11', 'identical unorderable keys (None) are equal')],
+    'C03': [('C19.3', 'nested list/dict arguments are aligned member by member by the loop lifting')],
+    'C06': [('C18.3', 'a callable filter receives exactly the columns it names (kwargs_support)')],
+    'C08': [('C03.1', 'operators act on ALIGNED operands: the join policies'), ('C03.2', 'as-of fill'), ('C03.3', 'array alignment'), ('C03.7', 'every operand enters the common index'),
+            ('C03.8', 'missing columns are NaN, not a number'), ('C03.9', 'nested operands are found'), ('C03.10', 'the call-time policies override the decorator defaults axis by axis')],
+    'C10': [('C09.1', 'drange iterates dt_bump for tenors'), ('C09.2', 'unit arithmetic of each part'), ('C09.3', 'business-day parts'), ('C09.4', 'parts applied left to right, each once')],
+    'C11': [('C07.2', 'groups are runs of cmp-equal keys in cmp order'), ('C07.3', 'numeric / NaN keys'), ('C07.9', 'string keys rank like native order'), ('C07.10', 'numpy scalars as keys'),
+            ('C07.11', 'None keys')],
+    'C12': [('C13.1', 'nona with an edge cuts with df_slice(..., openclose="[]")'), ('C13.2', 'closed bounds keep the boundary row')],
+    'C16': [('C15.1', 'd + other is tree_update: neither operand modified'), ('C15.3', 'override semantics of the merge'), ('C18.8', 'Dict.__call__ binds arguments by name'), ('C18.3', 'the names a callable takes from the mapping are getargs(f): positional AND keyword-only parameters')],
+    'C20': [('C02.1', 'perdictable joins its inputs with dictable.join'), ('C02.4', 'cross product of equal keys'), ('C02.5', 'anti-join for the defaulted side'), ('C02.6', 'mode / key columns'),
+            ('C02.9', 'key columns of the joined table')],
+}
+
+
 def shared_obligations(prop, repo, touched, own_ids):
-    """obligations of OTHER properties anchored on functions that this property's anchored code calls (directly or transitively): the
-    property's functions are only as right as the helpers they delegate to, so a defect in cmp / as_list / getargs / _df_recolumn ... is
-    reported under every property that reaches it. sa/anchors.json (tools/mkanchors.py) maps obligation -> functions it looks at."""
-    p = os.path.join(VERIF, 'sa', 'anchors.json')
-    if not os.path.exists(p):
-        return []
-    anchors = json.load(open(p))
-    reach = {'%s:%s%s' % (k[0], (k[1] + '.') if k[1] else '', k[2]) for k in call_closure(repo, touched)}
     out = []
-    aliases = set()
-    for i in range(1, 21):
-        q = 'C%02d' % i
-        if q == prop or not os.path.exists(os.path.join(VERIF, 'sa', 'rules', q + '.py')):
-            continue
+    for oid, reason in SHARE.get(prop, []):
+        q = oid.split('.')[0]
         for ob in load_rules(q):
-            a = anchors.get(ob.oid)
-            if a and set(a) <= reach and ob.func.__code__.co_code not in aliases:
-                sh = Ob(ob.oid, ob.rule + ' [shared]', ob.anchor, 'shared from %s because %s reaches %s through its calls: ' % (q, prop, ', '.join(a[:3])) + ob.why, ob.func, ob.axioms)
+            if ob.oid == oid:
+                sh = Ob(ob.oid, ob.rule + ' [shared]', ob.anchor, 'shared from %s: %s. ' % (q, reason) + ob.why, ob.func, ob.axioms)
                 sh.oid = '%s~%s' % (prop, ob.oid)
                 sh.base_oid = ob.oid
                 sh.prop = q
@@ -148,7 +164,7 @@ def check(prop, tier='quick', repo=None, only=None, quiet=False, write=True):
             results.append(run_obligation(ob, repo, tier, known))
     repo.touched = own_touched
     if not only or (prop + '.X') in only:
-        results.append(run_obligation(exits_obligation(prop, sorted(call_closure(repo, own_touched), key=str)), repo, tier, known))
+        results.append(run_obligation(exits_obligation(prop, sorted(call_closure(repo, own_touched, depth=2), key=str)), repo, tier, known))
     if not only or (prop + '.U') in only:
         results.append(run_obligation(defuse_obligation(prop, list(repo.touched)), repo, tier, known))
     st = repo.stats()
